@@ -134,7 +134,15 @@ def r2_criteria(repo, report):
                         return rv["ratio"] > 0
                     return rv["count"] > 0
 
-                table("TooManyN", roles, exp, "fraction mode: never for the empty read, else iff n/len > cutoff; count mode: iff n > cutoff")
+                # the fraction is the quotient n / len compared with the cutoff as given; the product form cutoff * len > n
+                # is another floating-point computation: 0.29 * 100 = 28.999999999999996, so a read with exactly 29% N is
+                # discarded although it has not MORE than the cutoff
+                prod = sorted({k for r in rows for k in r.valuation if k.startswith("sign:") and nk in k and "len(READ)" in k and "*" in k and "/len(READ)" not in k})
+                if prod:
+                    report.ob("C11.R2", "TooManyN.test", False, facts={"compares": prod[:2]}, expected="n_count / len(read) > cutoff (and never for the empty read)", loc=repo.loc(f),
+                              why="the fraction criterion is evaluated as a product with the read length: rounding of cutoff * len moves reads whose N fraction equals the cutoff")
+                else:
+                    table("TooManyN", roles, exp, "fraction mode: never for the empty read, else iff n/len > cutoff; count mode: iff n > cutoff")
     # expected errors
     if "TooManyExpectedErrors" in preds:
         attrs = list(_init_attr_from_param(repo, "TooManyExpectedErrors").values())
